@@ -28,19 +28,21 @@ func c3v(c model3d.Coord3D) pvec { return pvec{c.X, c.Y, c.Z} }
 func v2c(v pvec) model2d.Coord   { return model2d.XY(v[0], v[1]) }
 func c2v(c model2d.Coord) pvec   { return pvec{c.X, c.Y, 0} }
 
-func pvAdd(a, b pvec) pvec            { return pvec{a[0] + b[0], a[1] + b[1], a[2] + b[2]} }
-func pvSub(a, b pvec) pvec            { return pvec{a[0] - b[0], a[1] - b[1], a[2] - b[2]} }
-func pvScale(a pvec, s float64) pvec  { return pvec{a[0] * s, a[1] * s, a[2] * s} }
-func pvDot(a, b pvec) float64         { return a[0]*b[0] + a[1]*b[1] + a[2]*b[2] }
-func pvNorm(a pvec) float64           { return math.Sqrt(pvDot(a, a)) }
-func pvMaxAbs(a pvec) float64         { return math.Max(math.Abs(a[0]), math.Max(math.Abs(a[1]), math.Abs(a[2]))) }
-func q4pt(q [3]int) pvec              { return pvec{float64(q[0]) / 4, float64(q[1]) / 4, float64(q[2]) / 4} }
-func i3f(a [3]int) pvec               { return pvec{float64(a[0]), float64(a[1]), float64(a[2])} }
-func i3add(a, b [3]int) [3]int        { return [3]int{a[0] + b[0], a[1] + b[1], a[2] + b[2]} }
-func i3scale(a [3]int, k int) [3]int  { return [3]int{a[0] * k, a[1] * k, a[2] * k} }
-func i3dot(a, b [3]int) int           { return a[0]*b[0] + a[1]*b[1] + a[2]*b[2] }
-func i3slice(a [3]int) []int          { return []int{a[0], a[1], a[2]} }
-func isFinite(x float64) bool         { return !math.IsNaN(x) && !math.IsInf(x, 0) }
+func pvAdd(a, b pvec) pvec           { return pvec{a[0] + b[0], a[1] + b[1], a[2] + b[2]} }
+func pvSub(a, b pvec) pvec           { return pvec{a[0] - b[0], a[1] - b[1], a[2] - b[2]} }
+func pvScale(a pvec, s float64) pvec { return pvec{a[0] * s, a[1] * s, a[2] * s} }
+func pvDot(a, b pvec) float64        { return a[0]*b[0] + a[1]*b[1] + a[2]*b[2] }
+func pvNorm(a pvec) float64          { return math.Sqrt(pvDot(a, a)) }
+func pvMaxAbs(a pvec) float64 {
+	return math.Max(math.Abs(a[0]), math.Max(math.Abs(a[1]), math.Abs(a[2])))
+}
+func q4pt(q [3]int) pvec                { return pvec{float64(q[0]) / 4, float64(q[1]) / 4, float64(q[2]) / 4} }
+func i3f(a [3]int) pvec                 { return pvec{float64(a[0]), float64(a[1]), float64(a[2])} }
+func i3add(a, b [3]int) [3]int          { return [3]int{a[0] + b[0], a[1] + b[1], a[2] + b[2]} }
+func i3scale(a [3]int, k int) [3]int    { return [3]int{a[0] * k, a[1] * k, a[2] * k} }
+func i3dot(a, b [3]int) int             { return a[0]*b[0] + a[1]*b[1] + a[2]*b[2] }
+func i3slice(a [3]int) []int            { return []int{a[0], a[1], a[2]} }
+func isFinite(x float64) bool           { return !math.IsNaN(x) && !math.IsInf(x, 0) }
 func ri(rng *rand.Rand, lo, hi int) int { return lo + rng.Intn(hi-lo+1) }
 
 // scaledInt projects x*k to an integer; exact iff |x*k - round(x*k)| < 1e-6.
@@ -104,6 +106,7 @@ type primShape struct {
 	coneAxis      *pvec        // cone: unit axis, and
 	coneSlope     float64      // radius / height (rays parallel to a generator line are not in general position)
 	approx        float64      // > 0: a sampling collider of that resolution (positions to that accuracy, noisy normals, no ball queries)
+	hasNoNormal   bool         // the distance field offers no NormalSDF (extruded profiles): normal clauses are not asked
 }
 
 type prim3 interface {
@@ -1189,6 +1192,8 @@ type primSdfQ struct {
 	P4x    bool   `json:"p4x"`
 	N1     []int  `json:"n1"`
 	N1x    bool   `json:"n1x"`
+	// the field has no NormalSDF: nunit / nout / ncons are vacuously true and n1 is not an observation
+	Nonormal bool `json:"nonormal"`
 }
 
 type primSdfRec struct {
@@ -1285,11 +1290,23 @@ func primSdfQuery(s *primShape, q [3]int, tag string) primSdfQ {
 	o.Onsurf = math.Abs(v) < 1e-9
 	o.Sign = (v > 0) == in
 	p, vp := s.pointSDF(c)
-	n, vn := s.normalSDF(c)
+	var n pvec
+	vn := v
+	if !s.hasNoNormal {
+		n, vn = s.normalSDF(c)
+	}
 	o.Agree = math.Abs(vp-v) <= 1e-9 && math.Abs(vn-v) <= 1e-9
 	d := pvNorm(pvSub(p, c))
 	o.Pdist = math.Abs(d-math.Abs(v)) <= 1e-9*(1+math.Abs(v))
 	o.Psurf = math.Abs(s.sdf(p)) <= 1e-9*(1+pvMaxAbs(p))
+	o.V4, o.V4x = scaledInt(v, 4)
+	o.V256, _ = scaledInt(v, 256)
+	o.P4, o.P4x = scaledVec(p, 4)
+	if s.hasNoNormal {
+		o.Nunit, o.Nout, o.Ncons, o.Nonormal = true, true, true, true
+		o.N1 = []int{0, 0, 0}
+		return o
+	}
 	o.Nunit = math.Abs(pvNorm(n)-1) <= 1e-9
 	// the normal is judged at the nearest point only if PointSDF delivered a surface point (clause
 	// "point" otherwise); on everywhere-smooth shapes NormalSDF is also judged on its own: the
@@ -1311,9 +1328,6 @@ func primSdfQuery(s *primShape, q [3]int, tag string) primSdfQ {
 		x := pvAdd(c, pvScale(n, v))
 		o.Ncons = o.Ncons && math.Abs(s.sdf(x)) <= 1e-9*(1+pvMaxAbs(x))
 	}
-	o.V4, o.V4x = scaledInt(v, 4)
-	o.V256, _ = scaledInt(v, 256)
-	o.P4, o.P4x = scaledVec(p, 4)
 	o.N1, o.N1x = scaledVec(n, 1)
 	return o
 }
@@ -1630,6 +1644,8 @@ func init() {
 		for i := 0; i < 16*((n+3)/4); i++ {
 			shapes = append(shapes, genToolbox(rng, i))
 		}
+		// derived solids (own stream: the records above do not depend on them)
+		shapes = append(shapes, genDerivedSolids(rand.New(rand.NewSource(int64(a.int("seed", 1))*7919+33)), n)...)
 		for i, s := range shapes {
 			rec := primProbeSolid(i+1, s)
 			stats["records"]++
@@ -1650,7 +1666,15 @@ func init() {
 		defer out.close()
 		rng := rand.New(rand.NewSource(int64(a.int("seed", 1))*7919 + 6))
 		stats := map[string]int{}
-		for i, s := range genFull(rng, a.int("n", 4)) {
+		shapes := genFull(rng, a.int("n", 4))
+		nFull := len(shapes)
+		// extruded profiles as distance fields (own stream: the records above do not depend on them)
+		rng2 := rand.New(rand.NewSource(int64(a.int("seed", 1))*7919 + 66))
+		shapes = append(shapes, genProfilePrims(rng2, a.int("n", 4), false)...)
+		for i, s := range shapes {
+			if i == nFull {
+				rng = rng2
+			}
 			rec := primRunSdf(i+1, s, rng, a.int("q", 60))
 			stats["records"]++
 			stats["site:"+s.site]++
@@ -1671,7 +1695,14 @@ func init() {
 		for i := 0; i < 3*a.int("n", 4); i++ {
 			shapes = append(shapes, genSolidCollider(rng, i))
 		}
+		nFull := len(shapes)
+		// extruded profiles as colliders (own stream: the records above do not depend on them)
+		rng2 := rand.New(rand.NewSource(int64(a.int("seed", 1))*7919 + 77))
+		shapes = append(shapes, genProfilePrims(rng2, a.int("n", 4), true)...)
 		for i, s := range shapes {
+			if i == nFull {
+				rng = rng2
+			}
 			rec := primRunCollider(i+1, s, rng, a.int("rays", 60), a.int("balls", 20))
 			stats["records"]++
 			stats["site:"+s.site]++
